@@ -325,3 +325,56 @@ def render_elem(e) -> str:
     if k == "ref":
         return f"r{e[1]}"
     raise ValueError(e)
+
+
+def _unused():
+    pass
+
+
+def has_nested_first(e, top=True):
+    k = e[0]
+    if k == "alt":
+        if e[2] and not top:
+            return True
+        return any(has_nested_first(x, False) for x in e[1])
+    if k == "cat":
+        return any(has_nested_first(x, False) for x in e[1])
+    if k == "rep":
+        return has_nested_first(e[3], False)
+    if k == "opt":
+        return has_nested_first(e[1], False)
+    return False
+
+
+def build_from_text(P, grammar, tag=[0]):
+    """Build the same grammar by rendering it as ABNF text and loading it through the library's
+    reader (compile route).  Raises ValueError if the grammar cannot be expressed as text."""
+    tag[0] += 1
+    n = len(grammar)
+    lines = []
+    for name, ast, _ in grammar:
+        if has_nested_first(ast):
+            raise ValueError("nested first-match flag")
+        lines.append(f"{name} = {render_elem(ast)}")
+    text = "\r\n".join(lines) + "\r\n"
+    cls = type(f"GenT{tag[0]}", (P.Rule,), {})
+    cls.load_grammar(text, strict=False)
+    rules = [cls(name) for name, _, _ in grammar] + [cls(f"r{n}")]
+    for r, (_, ast, ex) in zip(rules, grammar):
+        if ast[0] == "alt" and ast[2]:
+            r.first_match_alternation = True
+    for r, (_, _, ex) in zip(rules, grammar):
+        if ex is not None:
+            r.exclude_rule(rules[ex])
+    return cls, rules
+
+
+def grammar_wire(grammar):
+    """Wire encoding of a generated grammar straight from its AST (independent of the library)."""
+    import refgrammar
+    n = len(grammar)
+    lines = [f"G {n + 1}"]
+    for name, ast, ex in grammar:
+        lines.append(f"{name} {'-' if ex is None else ex} " + refgrammar.ast_wire(ast, None))
+    lines.append("undefined-rule - U")
+    return lines
